@@ -12,6 +12,7 @@ import (
 
 	"github.com/cnotch/ipchub/provider/route"
 	"github.com/cnotch/ipchub/utils"
+	"github.com/cnotch/ipchub/utils/vhook"
 	"github.com/cnotch/scheduler"
 	"github.com/cnotch/xlog"
 )
@@ -47,7 +48,9 @@ func Regist(s *Stream) {
 	}
 
 	// 设置新流
+	vhook.At("regist.loaded", s)
 	streams.Store(s.path, s)
+	vhook.At("regist.stored", s)
 
 	// 如果存在旧流
 	if ok {
@@ -63,6 +66,7 @@ func Regist(s *Stream) {
 // Unregist 取消注册
 func Unregist(s *Stream) {
 	si, ok := streams.Load(s.path)
+	vhook.At("unregist.loaded", s)
 	if ok {
 		s2 := si.(*Stream)
 		if s2 == s {
@@ -100,6 +104,7 @@ func GetOrCreate(path string) *Stream {
 	}
 
 	// 检查路由
+	vhook.At("goc.miss", path)
 	path = utils.CanonicalPath(path)
 	r := route.Match(path)
 	if r != nil {
